@@ -18,6 +18,8 @@ R == INSTANCE Req
 
 Modes == {"fn", "mod", "trait"}
 VisFor(mode) == IF mode = "fn" THEN {"", "pub", "pub(crate)", "pub(super)", "pub(in crate::cases)"} ELSE {"", "pub", "pub(crate)"}
+\* the item's own visibility (fn, mod); for trait inputs: the visibility keyword written in the attribute before the
+\* delegation-target trait's name - neither may influence the generated trait's visibility
 ItemVis == {"", "pub", "pub(crate)"}
 Locs == {"same", "child", "sibling", "parent", "other-crate"}
 Inputs == { i \in [mode : Modes, vis : UNION { VisFor(m) : m \in Modes }, itemvis : ItemVis, loc : Locs] : i.vis \in VisFor(i.mode) }
